@@ -12,7 +12,7 @@ import lib.compat  # noqa
 from migen import *
 from litedram.common import LiteDRAMNativePort
 from lib.fastsim import FastSim, MigenSim, compile_dut, HarnessError
-from lib.native import NativeSlave
+from lib.native import NativeSlave, native_slave, slave_style
 from lib.aximem12 import AXIMem12
 from lib.streams import StreamSource, StreamSink, LevelDriver, sched_period, sched_extra, norm_pattern
 
@@ -66,7 +66,7 @@ def word_of(cfg, address):
 def make_slave(cfg, port, sl):
     sl = sl or {}
     if cfg["port"] == "native":
-        return NativeSlave([port], ready_pattern=norm_pattern(sl.get("ready")), wlat=sl.get("wlat"), rlat=sl.get("rlat"), qmax=sl.get("qmax", 8))
+        return native_slave([port], dict(sl, ready=norm_pattern(sl.get("ready")), wready=norm_pattern(sl.get("wready"))))
     return AXIMem12(port, aw_pat=norm_pattern(sl.get("aw")), w_pat=norm_pattern(sl.get("w")), ar_pat=norm_pattern(sl.get("ar")),
                     r_gap=sl.get("r_gap"), rlat=sl.get("rlat"), blat=sl.get("blat"), qmax=sl.get("qmax", 8))
 
@@ -186,6 +186,8 @@ def run_case(cfg, stim, backend=None, max_cycles=None, trace=None):
                 break
         else:
             quiet = 0
+    if hasattr(slave, "finish"):
+        slave.finish(t)
     r.cycles = t
     r.completed = done
     return r
@@ -247,6 +249,9 @@ def oracle(run):
         else:
             wlog = [(x[1], x[2], x[3], x[4], 1) for x in s.log if x[0] == "W"]
         for e in s.lost:
+            if e[0] == "W-extra":
+                fs.append(dict(clause=P + ".writer_extra_beat", key=kp + "extra", what="%s: stream-style port: more write-data beats than write commands were put on the port" % tag(cfg)))
+                break
             fs.append(dict(clause=P + ".writer_lost_beat", key=kp + "lost", what="%s: write strobe for address 0x%x at cycle %d met wdata.valid = 0" % (tag(cfg), e[3], e[1])))
             break
         if len(wlog) > nacc or (run.completed and len(wlog) != nacc):
@@ -312,10 +317,13 @@ def slave_scheds(draw, cfg):
     depth = cfg["depth"]
     qs = sorted(set([1, 2, 3, 8, 10, max(1, depth - 1), depth, depth + 1, depth + 4, 40]))
     if cfg["port"] == "native":
-        return dict(ready=draw(patterns(12)),
-                    rlat=draw(st.lists(st.sampled_from([5, 5, 6, 7, 9, 12, 20, 33, 60]), min_size=1, max_size=4)),
-                    wlat=draw(st.lists(st.sampled_from([3, 3, 4, 5, 8, 14, 30]), min_size=1, max_size=4)),
-                    qmax=draw(st.sampled_from(qs)))
+        d = dict(ready=draw(patterns(12)),
+                 rlat=draw(st.lists(st.sampled_from([5, 5, 6, 7, 9, 12, 20, 33, 60]), min_size=1, max_size=4)),
+                 wlat=draw(st.lists(st.sampled_from([3, 3, 4, 5, 8, 14, 30]), min_size=1, max_size=4)),
+                 qmax=draw(st.sampled_from(qs)))
+        # the DMA engines are routinely put on clock-domain-crossing / converted ports (video, BIST with CDC): stream-style memory side
+        d.update(slave_style(draw, st))
+        return d
     return dict(aw=draw(patterns(12)), w=draw(patterns(12)), ar=draw(patterns(12)),
                 r_gap=draw(st.lists(st.sampled_from([0, 0, 0, 1, 3]), min_size=1, max_size=3)),
                 rlat=draw(st.lists(st.sampled_from([1, 1, 2, 3, 6, 15, 40]), min_size=1, max_size=4)),
